@@ -19,3 +19,21 @@ func genBitsCode(repo string) (string, error) {
 	}
 	return "From Coq Require Import Bool.\nFrom V Require Import Lib.GoSem.\nImport GoNotations.\nLocal Open Scope Z_scope.\n" + body, nil
 }
+
+// Area DszBitsCode (C16, second priority): dsz/bits.go, type Bits (the deprecated twin of setz.Bits with the length
+// cached inline) — Grow, Add, Remove, Contains, Len, Cap.  A separate area, so that a change in one of the two files
+// degrades only its own tie.  coq/Proofs/DszBitsCode.v proves the functions equal to b_add / b_remove / contains /
+// grow / cap of Model/Bits.v.
+func init() { Register(Area{Name: "DszBitsCode", Gen: genDszBitsCode}) }
+
+func genDszBitsCode(repo string) (string, error) {
+	body, err := Translate(repo, TransSpec{
+		Dir:     "dsz",
+		Structs: []string{"Bits"},
+		Funcs:   []string{"Bits.Grow", "Bits.Add", "Bits.Remove", "Bits.Contains", "Bits.Len", "Bits.Cap"},
+	})
+	if err != nil {
+		return "", err
+	}
+	return "From Coq Require Import Bool.\nFrom V Require Import Lib.GoSem.\nImport GoNotations.\nLocal Open Scope Z_scope.\n" + body, nil
+}
